@@ -3,7 +3,7 @@
    checkers, progress under "the hold-out leaves an active sequence". *)
 From Coq Require Import List Arith Bool NArith ZArith Lia.
 From LMBase Require Import Res ListX.
-From LMSampler Require Import SamplerModel SamplerLemmas SamplerOps SamplerSpec SamplerProofs.
+From LMSampler Require Import SamplerModel SamplerLemmas SamplerOps SamplerSpec SamplerProofs SamplerFast.
 Import ListNotations.
 Local Open Scope N_scope.
 
@@ -245,6 +245,7 @@ Section Checkers.
   Lemma check_state_iff K W data r : check_state freq K W data r = true <-> state_holds K W data r.
   Proof.
     unfold check_state, check_range, check_motif, check_bg, check_n, state_holds.
+    rewrite motif_of_eq.
     rewrite !andb_true_iff, Nat.eqb_eq, N.eqb_eq, starts_in_range_spec. split.
     - intros [[[[Hl [Hls Hr]] Hm] Hb] Hn]. apply matrix_eqb_eq in Hm. apply opt_bits_eqb_eq in Hb.
       repeat split; auto.
@@ -256,7 +257,7 @@ Section Checkers.
   Lemma check_iteration_iff K W data act starts it :
     check_iteration K W data act starts it = true <-> iteration_holds K W data act starts it.
   Proof.
-    unfold check_iteration, iteration_holds. rewrite !andb_true_iff, N.eqb_eq, Nat.ltb_lt. split.
+    unfold check_iteration, iteration_holds. rewrite motif_of_eq. rewrite !andb_true_iff, N.eqb_eq, Nat.ltb_lt. split.
     - intros [[Hm Hn] Hz]. apply matrix_eqb_eq in Hm. auto.
     - intros [Hz [Hm Hn]]. repeat split; auto. rewrite Hm at 1. apply matrix_eqb_refl.
   Qed.
@@ -627,4 +628,170 @@ Proof.
   - apply (wf_syms c Hwf).
   - apply (ci_act_len c st Hi).
   - apply (ci_range c st Hi).
+Qed.
+
+(* ---------- the accessors active_sequences() / active_starts() ---------- *)
+
+Lemma filter_idx_In a : forall off i,
+  In i (filter_idx a off) <-> (off <= i < off + length a)%nat /\ nth (i - off) a false = true.
+Proof.
+  induction a as [|b a IH]; intros off i; cbn [filter_idx length].
+  - split; [contradiction|]. intros [H _]. lia.
+  - assert (Hrest : In i (filter_idx a (S off)) <->
+                    (S off <= i < off + S (length a))%nat /\ nth (i - off) (b :: a) false = true).
+    { rewrite IH. split; intros [H1 H2]; (split; [lia|]).
+      - replace (i - off)%nat with (S (i - S off)) by lia. exact H2.
+      - replace (i - off)%nat with (S (i - S off)) in H2 by lia. exact H2. }
+    destruct b; cbn [In]; rewrite Hrest.
+    + split.
+      * intros [<-|[H1 H2]]; [split; [lia|]; rewrite Nat.sub_diag; reflexivity|split; [lia|exact H2]].
+      * intros [H1 H2]. destruct (Nat.eq_dec off i) as [->|Hne]; [left; reflexivity|right; split; [lia|exact H2]].
+    + split.
+      * intros [H1 H2]. split; [lia|exact H2].
+      * intros [H1 H2]. split; [|exact H2].
+        destruct (Nat.eq_dec off i) as [->|Hne]; [rewrite Nat.sub_diag in H2; discriminate|lia].
+Qed.
+
+Lemma filter_idx_length a : forall off, N.of_nat (length (filter_idx a off)) = count_true a.
+Proof.
+  induction a as [|b a IH]; intros off; [reflexivity|].
+  unfold count_true. cbn [length]. rewrite sumN_shift. cbn [nth].
+  change (sumN (fun i => ind (nth i a false)) (length a)) with (count_true a).
+  cbn [filter_idx]. destruct b; cbn [length ind]; rewrite <- (IH (S off)); lia.
+Qed.
+
+Theorem accessors_spec c st :
+  CInv c st ->
+  (forall i, In i (active_sequences st) <->
+             (i < length (cData c))%nat /\ nth i (st_active st) false = true) /\
+  N.of_nat (length (active_sequences st)) = st_count st /\
+  active_starts st = Ok (map (fun i => nth i (st_starts st) O) (active_sequences st)).
+Proof.
+  intros Hi. unfold active_sequences, active_starts. split; [|split].
+  - intros i. rewrite filter_idx_In, Nat.sub_0_r, (ci_act_len c st Hi). split; intros [H1 H2]; (split; [lia|exact H2]).
+  - rewrite filter_idx_length. symmetry. apply (ci_count c st Hi).
+  - assert (E : forallb (fun i => (i <? length (st_starts st))%nat) (filter_idx (st_active st) 0) = true).
+    { apply forallb_forall. intros i Hin. apply filter_idx_In in Hin. destruct Hin as [H1 _].
+      apply Nat.ltb_lt. rewrite (ci_starts_len c st Hi), <- (ci_act_len c st Hi). lia. }
+    unfold active_sequences. rewrite E. reflexivity.
+Qed.
+
+(* ---------- inertia / patience / last_inclusion bookkeeping ---------- *)
+
+Lemma zoops_test_spec c st3 z accept st4 :
+  WF c -> CInv c st3 -> (z < length (cData c))%nat ->
+  zoops_test c st3 z accept = Ok st4 ->
+  st_last st4 = (if accept then st_step st3 else st_last st3) /\
+  st_conv st4 = (st_conv st3 || (cPatience c <? st_step st3 - st_last st4))%bool /\
+  nth z (st_active st4) false = (if accept then nth z (st_active st3) false else false).
+Proof.
+  intros Hwf Hi Hz. unfold zoops_test, prepare_pssm.
+  destruct (bg_total (st_bg st3)) as [t| | |]; cbn [rbind]; try discriminate.
+  destruct accept.
+  - cbn [rbind st_step st_last]. unfold sub_usize. rewrite N.leb_refl. cbn [rbind].
+    rewrite N.sub_diag. intros H. inversion H; subst; clear H.
+    assert (E : (cPatience c <? 0) = false) by (apply N.ltb_ge; lia). rewrite E.
+    cbn [st_last st_conv st_active st_step]. rewrite N.sub_diag, E, orb_false_r. auto.
+  - destruct (exclude_ok c st3 z Hwf Hi Hz) as [st' [E1 [_ [Ha' [_ [Hc1 [Hc2 Hc3]]]]]]].
+    rewrite E1. cbn [rbind]. unfold sub_usize.
+    destruct (st_last st' <=? st_step st'); cbn [rbind]; try discriminate.
+    intros H. inversion H; subst; clear H. rewrite Hc1, Hc2.
+    assert (Hzf : nth z (st_active st') false = false).
+    { rewrite Ha'. apply nth_upd_same. rewrite (ci_act_len c st3 Hi). exact Hz. }
+    destruct (cPatience c <? st_step st3 - st_last st3) eqn:Ep;
+      cbn [st_last st_conv st_active st_step]; rewrite ?Hc1, ?Hc2, ?Hc3, ?Ep, ?orb_true_r, ?orb_false_r; auto.
+Qed.
+
+(* the trial of an inactive sequence in Zoops mode *)
+Definition zoops_trial (c : cfg) (st : state) (z : nat) : bool :=
+  match cMode c with Zoops => negb (nth z (st_active st) false) | Oops => false end.
+
+Theorem next_bookkeeping c st ch st' it :
+  WF c -> Inv c st -> next c st ch = Ok (st', Some it) ->
+  (* inertia: during the first cInertia steps only seed sequences are held out *)
+  (cMode c = Zoops -> st_step st < cInertia c -> In (it_z it) (cSeed c)) /\
+  (* the hold-out ends up active unless it was an inactive sequence on trial and was rejected *)
+  nth (it_z it) (st_active st') false =
+    (if zoops_trial c st (it_z it) then ch_accept ch else true) /\
+  (* last_inclusion: the step of the last accepted trial *)
+  st_last st' = (if (zoops_trial c st (it_z it) && ch_accept ch)%bool then st_step st else st_last st) /\
+  (* convergence: a rejected trial more than cPatience steps after the last inclusion *)
+  st_conv st' = (zoops_trial c st (it_z it) && (cPatience c <? st_step st - st_last st'))%bool.
+Proof.
+  intros Hwf [Hi Hlast Hoops]. unfold next.
+  destruct (st_conv st) eqn:Econv; [discriminate|].
+  destruct (select_holdout c st (ch_z ch)) as [z| | |] eqn:Esel; cbn [rbind]; try discriminate.
+  destruct (bv_test (st_active st) z) as [a| | |] eqn:Ea; cbn [rbind]; try discriminate.
+  apply bv_test_inv in Ea. destruct Ea as [Hza Ea].
+  assert (Hz : (z < length (cData c))%nat) by (rewrite <- (ci_act_len c st Hi); auto).
+  destruct (resample c st z (ch_upd ch)) as [[cm st3]| | |] eqn:Er; cbn [rbind]; try discriminate.
+  destruct (resample_ok c st z (ch_upd ch) cm st3 Hwf Hi Hz Er) as [Hi3 [Ha3 [[Hc1 [Hc2 Hc3]] _]]].
+  cbn [fst snd].
+  assert (Hz3 : nth z (st_active st3) false = true).
+  { rewrite Ha3. apply nth_upd_same. exact Hza. }
+  assert (Hseed : cMode c = Zoops -> st_step st < cInertia c -> In z (cSeed c)).
+  { intros Hm Hlt. revert Esel. unfold select_holdout. cbv zeta. rewrite Hm.
+    apply N.ltb_lt in Hlt. rewrite Hlt. destruct (cSeed c) as [|s0 sr] eqn:Es; [discriminate|].
+    rewrite <- Es. destruct (existsb (Nat.eqb (ch_z ch)) (cSeed c)) eqn:Ex; [|discriminate].
+    intros H. inversion H; subst z. apply existsb_exists in Ex. destruct Ex as [x [Hx Hxe]].
+    apply Nat.eqb_eq in Hxe. subst x. exact Hx. }
+  unfold zoops_trial.
+  destruct (cMode c) eqn:Em.
+  - (* Oops *)
+    assert (E4 : (if a then Ok st3 else Ok st3) = Ok st3 :> res state) by (destruct a; reflexivity).
+    cbv iota. try rewrite E4. destruct a; cbn [rbind];
+    (destruct (st_step st3 + 1 <=? usize_max); [|intros H; discriminate H]);
+    intros H; inversion H; subst st' it; clear H;
+    cbn [it_z st_active st_last st_conv andb]; rewrite Hz3, Hc2, Hc3, Econv;
+    (split; [intros Hm; discriminate Hm|]); auto.
+  - (* Zoops *)
+    destruct a eqn:Eaa.
+    + cbn [rbind]. destruct (st_step st3 + 1 <=? usize_max); [|intros H; discriminate H].
+      intros H. inversion H; subst st' it; clear H.
+      cbn [it_z st_active st_last st_conv andb negb]. rewrite <- Ea. cbn [andb negb].
+      rewrite Hz3, Hc2, Hc3, Econv.
+      split; [exact Hseed|]. auto.
+    + destruct (zoops_test c st3 z (ch_accept ch)) as [st4| | |] eqn:E4; cbn [rbind]; try discriminate.
+      destruct (zoops_test_spec c st3 z (ch_accept ch) st4 Hwf Hi3 Hz E4) as [Hl4 [Hv4 Hact4]].
+      destruct (st_step st4 + 1 <=? usize_max); [|intros H; discriminate H].
+      intros H. inversion H; subst st' it; clear H.
+      cbn [it_z st_active st_last st_conv andb negb]. rewrite <- Ea. cbn [andb negb].
+      split; [exact Hseed|]. split; [|split].
+      * rewrite Hact4, Hz3. destruct (ch_accept ch); reflexivity.
+      * rewrite Hl4, Hc1, Hc2. reflexivity.
+      * rewrite Hv4, Hc3, Econv, Hc1. reflexivity.
+Qed.
+
+(* Zoops: while the step counter has not passed the inertia, only seed sequences are active *)
+Definition inertia_inv (c : cfg) (st : state) : Prop :=
+  cMode c = Zoops -> st_step st <= cInertia c ->
+  forall i, nth i (st_active st) false = true -> In i (cSeed c).
+
+Lemma next_inertia_inv c st ch st' oit :
+  WF c -> Inv c st -> inertia_inv c st -> next c st ch = Ok (st', oit) -> inertia_inv c st'.
+Proof.
+  intros Hwf Hinv HJ En.
+  destruct (next_inv c st ch st' oit Hwf Hinv En) as [_ Hpost].
+  destruct oit as [it|]; cbn [next_post] in Hpost.
+  - destruct Hpost as [_ [_ [_ [Hstep' [_ [_ [_ [Hoth _]]]]]]]].
+    destruct (next_bookkeeping c st ch st' it Hwf Hinv En) as [Hseed _].
+    intros Hm Hle i Hi. rewrite Hstep' in Hle.
+    destruct (Nat.eq_dec i (it_z it)) as [->|Hne].
+    + apply Hseed; auto. lia.
+    + apply (HJ Hm ltac:(lia)). rewrite <- (proj1 (Hoth i Hne)). exact Hi.
+  - destruct Hpost as [-> _]. exact HJ.
+Qed.
+
+Lemma run_inertia_inv c chs : WF c -> forall st t,
+  Inv c st -> inertia_inv c st -> run c st chs = Ok t ->
+  Forall (fun x => inertia_inv c (fst x)) t.
+Proof.
+  intros Hwf. induction chs as [|ch r IH]; intros st t Hinv HJ H.
+  - simpl in H. inversion H. constructor.
+  - cbn [run] in H. destruct (next c st ch) as [[st' oit]|e|s|] eqn:En; cbn [rbind] in H; try discriminate.
+    cbn [fst] in H. destruct (run c st' r) as [t'|e|s|] eqn:E; cbn [rbind] in H; try discriminate.
+    inversion H; subst t; clear H.
+    destruct (next_inv c st ch st' oit Hwf Hinv En) as [Hinv' _].
+    pose proof (next_inertia_inv c st ch st' oit Hwf Hinv HJ En) as HJ'.
+    constructor; [exact HJ'|]. apply (IH st'); auto.
 Qed.
